@@ -7,6 +7,13 @@ Poison: the model marks cells that the kernel must not write with -1.  The harne
 with a recognisable pattern (0xFFFF / 0xFFFFFFFF / -1 / -12345.0) and requires exactly that pattern where the
 model says -1.
 
+Programs: m2c, cut, sorted, sort, thresh (SparseCoo.tla); cd, pipe, hist (SparseOverlaps.tla).  "hist" = one
+overlaps_linear and one overlaps_matrix object driven through the calls of a history, then the same history as
+a scan through sinograms.properties.pairrow / pairscans (judge_hist).  to_dense is called in every way its
+docstring offers (name, default, the array itself; fresh and caller supplied dirty `out`): dense_checks.
+Harness-only families (covariant model): mask / pixel dtypes, VARIANTS (value and cut maps), threads, call forms.
+COUNTS: calls into the implementation per route family - the vacuity counts of the evidence file.
+
 Run as a script (sanitizer build, see props/c14.py):  c14_replay.py cases.jsonl out.json
 """
 import sys, os, json
@@ -56,6 +63,28 @@ def expect(lst, dtype):
     return np.array([p if v == -1 else v for v in lst], dtype=dtype)
 
 
+import collections
+COUNTS = collections.Counter()      # calls into the implementation per route family (vacuity counts of the evidence)
+
+
+_FAM = {}
+
+
+def family(route):
+    """route without its per-case decoration: 'a.b[x, via c[y]] (z 3)' -> 'a.b (z N)'"""
+    f = _FAM.get(route)
+    if f is None:
+        import re
+        r = route
+        while True:
+            r2 = re.sub(r"\[[^\[\]]*\]", "", r)
+            if r2 == r:
+                break
+            r = r2
+        f = _FAM[route] = re.sub(r"\d+", "N", r).strip()
+    return f
+
+
 class Judge(object):
     def __init__(self):
         self.fails = []
@@ -76,6 +105,7 @@ class Judge(object):
 
     def call(self, route, fn, *a, **k):
         """call into the implementation; an exception is a failure of that route"""
+        COUNTS[family(route)] += 1
         try:
             return True, fn(*a, **k)
         except Exception as e:      # noqa
@@ -113,9 +143,20 @@ def frame_eq(J, route, fr, exp, pxdtypes=None):
     return ok
 
 
-def dense_checks(J, route, fr, dense, shape, named=None, boolmask=False):
-    exp = np.array(dense, np.float64).reshape(shape)
-    if named is not None:
+TD_ARRAY = "sparse_frame.to_dense(array)"      # route name of the fourth way of choosing `data` (its own failure group)
+
+
+def dense_checks(J, route, fr, dense, shape, named=None, boolmask=False, dense2=None, vmap=None, level=2):
+    """every way of choosing to_dense's `data`: by name, by default (the only array / a boolean mask), by
+    handing over the array itself (dense2 = the model's second pass, TD2_*), each with and without a caller
+    supplied `out` that is full of a poison value.  vmap: the value variant applied to the model's grey levels.
+    level 2: all of them; level 1: default and array (the call forms repeat for every mask / value variant of a
+    case, the ways of choosing `data` do not depend on them)."""
+    vmap = vmap or (lambda a: a)
+    exp = np.asarray(vmap(np.array(dense, np.float64)), np.float64).reshape(shape)
+    if boolmask:
+        exp = np.array(dense, np.float64).reshape(shape)
+    if named is not None and level >= 2:
         ok, d = J.call(route + ".to_dense(name)", fr.to_dense, named)
         if ok:
             J.eq(route + ".to_dense(name)", "dense", np.asarray(d, np.float64), exp)
@@ -124,13 +165,38 @@ def dense_checks(J, route, fr, dense, shape, named=None, boolmask=False):
         J.eq(route + ".to_dense()", "dense", np.asarray(d, np.float64), exp)
         if boolmask:
             J.eq(route + ".to_dense()", "dtype", str(np.asarray(d).dtype), "bool")
-    # caller supplied output array
-    if not boolmask:
+    # caller supplied output array, dirty: every cell must be (re)written
+    if not boolmask and level >= 2:
         nm = named if named is not None else list(fr.pixels.keys())[0]
-        out = np.zeros(shape, fr.pixels[nm].dtype)
-        ok, d = J.call(route + ".to_dense(out=)", fr.to_dense, nm, out)
+        out = np.full(shape, poison_of(fr.pixels[nm].dtype), fr.pixels[nm].dtype)
+        ok, d = J.call(route + ".to_dense(out=dirty)", fr.to_dense, nm, out)
         if ok:
-            J.eq(route + ".to_dense(out=)", "dense", np.asarray(out, np.float64), exp)
+            J.eq(route + ".to_dense(out=dirty)", "dense", np.asarray(out, np.float64), exp)
+            J.eq(route + ".to_dense(out=dirty)", "returns out", d is out, True)
+    if dense2 is not None and "intensity" in fr.pixels:
+        exp2 = np.asarray(vmap(np.array(dense2, np.float64)), np.float64).reshape(shape)
+        arr = fr.pixels["intensity"]
+        r2 = TD_ARRAY + "[via %s]" % route
+        ok, d = J.call(r2, fr.to_dense, arr)
+        if ok:
+            J.eq(r2, "dense", np.asarray(d, np.float64), exp2)
+            J.eq(r2, "dtype", str(np.asarray(d).dtype), str(arr.dtype))
+        if level < 2:
+            return
+        out = np.full(shape, poison_of(arr.dtype), arr.dtype)
+        r2 = TD_ARRAY + "[out=dirty, via %s]" % route
+        ok, d = J.call(r2, fr.to_dense, arr.copy(), out)
+        if ok:
+            J.eq(r2, "dense", np.asarray(out, np.float64), exp2)
+        # an array that is none of the frame's own (the conversion is linear in `data`: 2 v + 1 on the frame's
+        # pixels, which are the non-zero cells of the model's second pass)
+        other = (np.asarray(arr, np.float64) * 2 + 1).astype(np.float32)
+        r2 = TD_ARRAY + "[other array, via %s]" % route
+        ok, d = J.call(r2, fr.to_dense, other)
+        if ok:
+            on = np.array(dense2, np.float64).reshape(shape) != 0
+            J.eq(r2, "dense", np.asarray(d, np.float64),
+                 np.where(on, (exp2 * 2 + 1).astype(np.float32).astype(np.float64), 0.0))
 
 
 def judge_m2c(c, m, light):
@@ -167,12 +233,70 @@ def judge_m2c(c, m, light):
                 continue
             frame_eq(J, route, fr, efr)
             J.eq(route, "intensity dtype", str(fr.pixels["intensity"].dtype), dname)
-            dense_checks(J, route, fr, c["dense"], (ns, nf), named="intensity")
+            dense_checks(J, route, fr, c["dense"], (ns, nf), named="intensity", dense2=c.get("dense2") or None,
+                         level=2 if vname == "int8" else 1)
             J.call(route + ".is_sorted", fr.is_sorted)
             ok, r = J.call("cImageD11.sparse_is_sorted", m.c.sparse_is_sorted, fr.row, fr.col)
             if ok:
                 J.eq("cImageD11.sparse_is_sorted", "return on a frame from a mask", int(r), 0)
     return J.fails
+
+
+B24 = 1 << 24
+T0 = np.float32(0.1)                                # 0.1 is not a binary32 number: the kernels see float32(0.1)
+T1 = np.nextafter(T0, np.float32(1))
+T2 = np.nextafter(T1, np.float32(1))
+_TEN = [float(T0), float(T1), float(T2)]
+# value variants: order-preserving maps (tag, f, fcut) of the model's small grey levels with
+#       v > cut  <=>  f(v) > <the cut as the kernel sees it: C int for u16, C float for u32 / f32>
+# so that the model's selection, order and coordinates stay the expectation while the kernels see values at the
+# far end of each dtype: uint16 with the top bit set, uint32 beyond 2^24 where binary32 cannot tell neighbours
+# apart (f(cut + 1) = f_cut + 1 rounds onto f_cut as a float), float32 between the integers, NEGATIVE float32
+# images with negative cuts (nothing in the statement makes a cut non-negative for float data), and cuts that
+# are not binary32 numbers: 0.1 with pixels at float32(0.1) (equal after the conversion, larger before it) and
+# its two successors, the cut for level 1 just BELOW the double value of float32(0.1)+1ulp (still rounds to it);
+# a fractional cut for uint32 data (the kernel truncates it: v > k + 0.5 <=> v > k for integers).
+VARIANTS = {
+    "tosparse_u16": [("", lambda v: v, lambda k: int(k)),
+                     ("hi", lambda v: np.where(v > 0, 65533 + v, 0), lambda k: int(65533 + k))],
+    "tosparse_u32": [("", lambda v: v, lambda k: float(k)),
+                     ("2^24", lambda v: np.where(v > 0, B24 + 2 * v - 1, 0), lambda k: float(B24 + 2 * k)),
+                     ("2^31", lambda v: np.where(v > 0, (1 << 31) + 256 * v, 0), lambda k: float((1 << 31) + 256 * k)),
+                     ("cut+0.5", lambda v: v, lambda k: float(k) + 0.5)],
+    "tosparse_f32": [("", lambda v: v, lambda k: float(k)),
+                     ("half", lambda v: np.where(v > 0, v - 0.5, 0), lambda k: float(k)),
+                     ("negative", lambda v: np.asarray(v, np.float64) * 0.75 - 2.25, lambda k: 0.75 * k - 2.25),
+                     ("0.1", lambda v: np.array(_TEN)[np.asarray(v, np.int64)],
+                      lambda k: [0.1, float(T1) - 1e-10, float(T2)][int(k)])],
+}
+FDC_VARIANTS = {"uint16": "tosparse_u16", "float32": "tosparse_f32"}
+
+
+_VOK = {}
+
+
+def _variant_ok(kname, dt, fmap, cmap, nval=3):
+    """the map's side condition, evaluated with numpy's own conversions (independent of the module under test)"""
+    key = (kname, id(fmap))
+    if key not in _VOK:
+        _VOK[key] = _variant_ok1(kname, dt, fmap, cmap, nval)
+    return _VOK[key]
+
+
+def _variant_ok1(kname, dt, fmap, cmap, nval):
+    lv = np.arange(nval)
+    fv = np.asarray(fmap(lv)).astype(dt)
+    for k in range(nval):
+        cc = cmap(k)
+        if kname == "tosparse_u16":
+            seen = fv > np.uint16(cc)
+        elif kname == "tosparse_u32":
+            seen = fv > np.uint32(np.float32(cc))       # real :: cut, then uicut = cut
+        else:
+            seen = fv > np.float32(cc)
+        if list(seen) != list(lv > k):
+            return False
+    return True
 
 
 def judge_cut(c, m, light):
@@ -182,27 +306,16 @@ def judge_cut(c, m, light):
     img = np.array(c["img"], np.int64).reshape(ns, nf)
     mskb = np.array(c["msk"], np.int64).reshape(ns, nf)
     cut = c["cut"]
-    # value variants: order-preserving maps of the model's small grey levels (v > cut  <=>  f(v) > f_cut), so the
-    # model's selection, order and coordinates stay the expectation while the kernels see values at the far end of
-    # each dtype: uint16 with the top bit set, uint32 beyond 2^24 where binary32 cannot tell neighbours apart
-    # (f(cut + 1) = f_cut + 1 rounds onto f_cut as a float), float32 between the integers
-    B24 = 1 << 24
-    VARIANTS = {
-        "tosparse_u16": [("", lambda v: v, lambda k: int(k)),
-                         ("hi", lambda v: np.where(v > 0, 65533 + v, 0), lambda k: int(65533 + k))],
-        "tosparse_u32": [("", lambda v: v, lambda k: float(k)),
-                         ("2^24", lambda v: np.where(v > 0, B24 + 2 * v - 1, 0), lambda k: float(B24 + 2 * k)),
-                         ("2^31", lambda v: np.where(v > 0, (1 << 31) + 256 * v, 0), lambda k: float((1 << 31) + 256 * k))],
-        "tosparse_f32": [("", lambda v: v, lambda k: float(k)),
-                         ("half", lambda v: np.where(v > 0, v - 0.5, 0), lambda k: float(k))],
-    }
     kernels = [("tosparse_u16", np.uint16), ("tosparse_f32", np.float32)] if c["style"] == "nested" else [("tosparse_u32", np.uint32)]
     for kname, dt in kernels:
         for vtag, fmap, cmap in VARIANTS[kname][:1 if light else None]:
+            if not _variant_ok(kname, dt, fmap, cmap):
+                J.fails.append(("harness", "exception", "value variant %s of %s is not order preserving" % (vtag, kname)))
+                continue
             kcut = cmap(cut)
             for mname, mdt, mval in (("uint8", np.uint8, 1), ("bool", bool, 1), ("uint8x255", np.uint8, 255))[:1 if (light or vtag) else 3]:
                 msk = (mskb * mval).astype(mdt)
-                data = fmap(img).astype(dt)
+                data = np.asarray(fmap(img)).astype(dt)
                 row = np.full((ns, nf), P16, np.uint16)
                 col = np.full((ns, nf), P16, np.uint16)
                 val = np.full((ns, nf), poison_of(dt), dt)
@@ -222,21 +335,34 @@ def judge_cut(c, m, light):
     if c["frame"] and c["style"] == "nested":
         efr = c["frame"][0]
         allones = all(v != 0 for v in c["msk"])
-        for dname, dt, kcut in (("uint16", np.uint16, int(cut)), ("float32", np.float32, float(cut))):
-            data = img.astype(dt)
-            calls = [("detectormask=uint8", dict(detectormask=mskb.astype(np.uint8))),
-                     ("detectormask=bool", dict(detectormask=mskb.astype(bool)))]
-            if allones:
-                calls.append(("detectormask=None", {}))
-            for cname, kw in calls[:1] if light else calls:
-                route = "sparseframe.from_data_cut[%s,%s]" % (dname, cname)
-                ok, fr = J.call(route, m.sf.from_data_cut, data, kcut, {}, **kw)
-                if not ok:
-                    continue
-                frame_eq(J, route, fr, efr)
-                J.eq(route, "intensity dtype", str(fr.pixels["intensity"].dtype), dname)
-                dense_checks(J, route, fr, c["dense"], (ns, nf))
-                J.call(route + ".is_sorted", fr.is_sorted)
+        for dname, dt in (("uint16", np.uint16), ("float32", np.float32)):
+            for vtag, fmap, cmap in VARIANTS[FDC_VARIANTS[dname]][:1 if light else None]:
+                data = np.asarray(fmap(img)).astype(dt)
+                kcut = cmap(cut)
+                calls = [("detectormask=uint8", dict(detectormask=mskb.astype(np.uint8))),
+                         ("detectormask=bool", dict(detectormask=mskb.astype(bool)))]
+                if allones:
+                    calls.append(("detectormask=None", {}))
+                if vtag:                    # the variants go through one call form (the others differ in the mask only)
+                    calls = calls[-1:]
+                vfr = efr
+                if vtag:                    # the model frame with the variant's pixel values
+                    vfr = dict(efr, px={"intensity": [float(x) for x in np.asarray(fmap(np.array(efr["px"]["intensity"]))).astype(dt)]})
+                for icall, (cname, kw) in enumerate(calls[:1] if light else calls):
+                    route = "sparseframe.from_data_cut[%s,%s%s]" % (dname, cname, ", values " + vtag if vtag else "")
+                    ok, fr = J.call(route, m.sf.from_data_cut, data, kcut, {}, **kw)
+                    if not ok:
+                        continue
+                    frame_eq(J, route, fr, vfr)
+                    J.eq(route, "intensity dtype", str(fr.pixels["intensity"].dtype), dname)
+                    # the dense image: variant values on the selected pixels, 0 elsewhere
+                    sel = np.zeros(npx, bool)
+                    sel[np.array(efr["row"], np.int64) * nf + np.array(efr["col"], np.int64)] = True
+                    vm = (lambda a, sel=sel, fmap=fmap, dt=dt:
+                          np.where(sel, np.asarray(fmap(np.asarray(a, np.int64))).astype(dt).astype(np.float64), 0.0)) if vtag else None
+                    dense_checks(J, route, fr, c["dense"], (ns, nf), dense2=c.get("dense2") or None, vmap=vm,
+                                 level=2 if (icall == 0 and not vtag) else 1)
+                    J.call(route + ".is_sorted", fr.is_sorted)
     return J.fails
 
 
@@ -284,13 +410,14 @@ def judge_sort(c, m, light):
         frame_eq(J, route, fr, efr)
         if c["how"] == "sort":
             J.call(route + " -> is_sorted", fr.is_sorted)
-        dense_checks(J, route, fr, c["dense"], (ns, nf), boolmask=True)
-        ok, d = J.call(route + ".to_dense(intensity)", fr.to_dense, "intensity")
-        if ok:      # values stay attached: dense image of the sorted frame = the test image on the frame's pixels
-            exp = np.zeros((ns, nf))
-            for r, cc, v in zip(c["frame0"]["row"], c["frame0"]["col"], c["frame0"]["px"]["intensity"]):
-                exp[r, cc] = v
-            J.eq(route + ".to_dense(intensity)", "dense", np.asarray(d, np.float64), exp)
+        # to_dense(): boolean mask (two arrays); to_dense(<intensity array>) and to_dense("intensity"): values
+        # stay attached - the model's second pass paints the test image on the frame's pixels
+        dense_checks(J, route, fr, c["dense"], (ns, nf), boolmask=True, dense2=c["dense2"],
+                     level=2 if idt == np.float32 else 1)
+        ok, d = J.call(route + ".to_dense(name)", fr.to_dense, "intensity")
+        if ok:
+            J.eq(route + ".to_dense(name)", "dense", np.asarray(d, np.float64),
+                 np.array(c["dense2"], np.float64).reshape(ns, nf))
     # reorder() directly with the model's order (the statement sort() is supposed to execute)
     fr = make_frame(m, c["frame0"], (ns, nf), {"intensity": np.float32, "labels": np.int32})
     ok, _ = J.call("sparse_frame.reorder", fr.reorder, np.array(c["order"], np.intp))
@@ -305,21 +432,33 @@ def judge_thresh(c, m, light):
         return J.fails          # nothing above threshold: the library raises; outside the quantifier
     ns, nf = c["ns"], c["nf"]
     efr = c["frame"][0]
+    name = c.get("name", "intensity")
+    two = len(c["frame0"]["names"]) > 1
     for idt in ((np.float32,) if light else (np.float32, np.uint16)):
-        fr = make_frame(m, c["frame0"], (ns, nf), {"intensity": idt})
-        route = "sparse_frame.threshold"
-        ok, t = J.call(route, fr.threshold, c["t"])
-        if ok:
-            frame_eq(J, route, t, efr)
-            dense_checks(J, route, t, c["dense"], (ns, nf))
-            J.call(route + ".is_sorted", t.is_sorted)
+        # threshold(t) [default name], threshold(t, name=...) and threshold(t, <name>) positionally
+        forms = [("(t)", (c["t"],), {})] if name == "intensity" else []
+        forms += [("(t, name=%s)" % name, (c["t"],), {"name": name}), ("(t, %s)" % name, (c["t"], name), {})]
+        for iform, (ftag, a, kw) in enumerate(forms[:1] if (light or idt != np.float32) else forms):
+            fr = make_frame(m, c["frame0"], (ns, nf), {"intensity": idt, "labels": np.int32})
+            route = "sparse_frame.threshold[%s]" % ftag
+            ok, t = J.call(route, fr.threshold, *a, **kw)
+            if ok:
+                frame_eq(J, route, t, efr)
+                dense_checks(J, route, t, c["dense"], (ns, nf), boolmask=two, dense2=c["dense2"],
+                             level=2 if iform == 0 else 1)
+                J.call(route + ".is_sorted", t.is_sorted)
+                for nm in efr["names"]:     # the new frame owns its arrays (the parent's stay what they were)
+                    if nm in t.pixels:
+                        J.eq(route, "pixels[%s] dtype" % nm, str(t.pixels[nm].dtype), str(fr.pixels[nm].dtype))
+            # the parent frame is untouched
+            frame_eq(J, "sparse_frame.threshold (parent unchanged)", fr, c["frame0"])
+        fr = make_frame(m, c["frame0"], (ns, nf), {"intensity": idt, "labels": np.int32})
         route = "sparse_frame.mask"
-        b = np.array(c["frame0"]["px"]["intensity"]) > c["t"]
+        b = np.array(c["frame0"]["px"][name]) > c["t"]
         ok, t = J.call(route, fr.mask, b)
         if ok:
             frame_eq(J, route, t, efr)
-        # the parent frame is untouched
-        frame_eq(J, "sparse_frame.threshold (parent unchanged)", fr, c["frame0"])
+        frame_eq(J, "sparse_frame.mask (parent unchanged)", fr, c["frame0"])
     return J.fails
 
 
@@ -445,6 +584,120 @@ def judge_pipe(c, m, light):
     return J.fails
 
 
+def _arrs(f):
+    return (np.array(f["row"], np.uint16), np.array(f["col"], np.uint16), np.array(f["lab"], np.int32), f["n"])
+
+
+def _h(case, salt):
+    """small deterministic number from the content of a case (replays of a saved case take the same choices)"""
+    import zlib
+    return zlib.crc32((json.dumps(case, sort_keys=True) + salt).encode())
+
+
+def judge_hist(c, m, light):
+    """program "hist" of SparseOverlaps.tla: ONE overlaps_linear and ONE overlaps_matrix object are driven
+    through the calls of the history (different frame pairs, growing and shrinking); every call is judged
+    by its own expectation.  The same history is then handed to the consumers, which keep one
+    overlaps_linear object for a whole scan: pairrow (chained histories = consecutive frames of a scan in
+    omega order; frames stored in another order, one empty frame) and pairscans (any history = the pairs
+    (frame i of scan 1, its omega neighbour in scan 2); modulo-360 matches, a frame without neighbour,
+    empty frames on both sides)."""
+    J = Judge()
+    calls = c["calls"]
+    ol = m.sf.overlaps_linear(nnzmax=c["nnzmax0"])
+    om = m.sf.overlaps_matrix(npkmax=c["npkmax0"])
+    nnzmax, npkmax = c["nnzmax0"], c["npkmax0"]
+    for k, call in enumerate(calls):
+        a1, a2 = _arrs(call["f1"]), _arrs(call["f2"])
+        erc = np.array(call["lin"]["rcl"], np.int32).reshape(-1, 3)
+        # checkmem=False is allowed when the caller knows that nothing has to grow (the model's nnzmax stays)
+        kw = {}
+        if call["nnzmax"] == nnzmax and call["npkmax"] == npkmax and (_h(call, "cm") + k) % 3 == 0:
+            kw = {"checkmem": False}
+        nnzmax, npkmax = call["nnzmax"], call["npkmax"]
+        route = "sparseframe.overlaps_linear (history, call %d of one object%s)" % (k + 1, ", checkmem=False" if kw else "")
+        ok, ans = J.call(route, _quiet, ol, *(a1 + a2), **kw)
+        if ok:
+            lin_eq(J, route, ans, call["lin"], erc)
+        route = "sparseframe.overlaps_matrix (history, call %d of one object%s)" % (k + 1, ", checkmem=False" if kw else "")
+        ok, ans = J.call(route, _quiet, om, *(a1 + a2), **kw)
+        if ok:      # the answer is a view of the object's result buffer: judged before the next call
+            J.eq(route, "nov", int(ans[0]), call["mat"]["nov"])
+            J.eq(route, "result", np.asarray(ans[1]), np.array(call["mat"]["res"], np.int32).reshape(-1, 3))
+    if m.props is None or light:
+        return J.fails
+    if c["chain"]:
+        # ---- pairrow: frames G0 .. Gn in omega order (Gk-1, Gk = the frames of call k), one empty frame at a
+        # position of the omega order taken from the case, stored in a permuted order
+        shape = (calls[0]["ns"], calls[0]["nf"])
+        chain = [calls[0]["f1"]] + [cl["f2"] for cl in calls]
+        pos = _h(c, "empty") % (len(chain) + 1)              # the empty frame comes before chain[pos]
+        order = list(range(len(chain)))                      # omega order: entries = chain index, -1 = empty
+        order.insert(pos, -1)
+        nfr = len(order)
+        perm = np.random.RandomState(_h(c, "perm") % (1 << 31)).permutation(nfr)   # storage slot of omega rank r
+        if nfr > 2 and list(perm) == sorted(perm):
+            perm = perm[::-1].copy()
+        frames, omega = [None] * nfr, [0.0] * nfr
+        empty = (np.zeros(0, np.uint16), np.zeros(0, np.uint16), np.zeros(0, np.int32), 0)
+        for rank, ci in enumerate(order):
+            frames[perm[rank]] = empty if ci < 0 else _arrs(chain[ci])
+            omega[perm[rank]] = -7.5 + 0.25 * rank           # distinct, increasing with the rank, some negative
+        exp = {}
+        for rank in range(1, nfr):
+            a, b = order[rank - 1], order[rank]
+            if a >= 0 and b >= 0:                            # b = a + 1: call number b
+                exp[(5, int(perm[rank - 1]), 5, int(perm[rank]))] = calls[b - 1]
+        route = "sinograms.properties.pairrow (scan of %d frames, unsorted omega, one empty frame)" % nfr
+        s = _scan(m, frames, shape, omega)
+        ok, pairs = J.call(route, _quiet, m.props.pairrow, s, 5)
+        if ok:
+            J.eq(route, "keys", sorted(tuple(int(x) for x in kk) for kk in pairs.keys()), sorted(exp.keys()))
+            for kk, call in sorted(exp.items()):
+                if kk in pairs:
+                    lin_eq(J, route, pairs[kk], call["lin"], np.array(call["lin"]["rcl"], np.int32).reshape(-1, 3))
+    else:
+        # ---- pairscans: frame i of scan 1 = first frame of call i, its omega neighbour in scan 2 = second frame
+        shapes = set((cl["ns"], cl["nf"]) for cl in calls)
+        if len(shapes) == 1:            # one scan has one image shape
+            shape = shapes.pop()
+            n = len(calls)
+            nfr = n + 3
+            one = _arrs(calls[0]["f1"])
+            two = _arrs(calls[0]["f2"])
+            empty = (np.zeros(0, np.uint16), np.zeros(0, np.uint16), np.zeros(0, np.int32), 0)
+            perm = np.random.RandomState(_h(c, "perm2") % (1 << 31)).permutation(nfr)
+            f1s, o1 = [], []
+            f2s, o2 = [None] * nfr, [0.0] * nfr
+            exp = {}
+            for i, cl in enumerate(calls):
+                w = 10.0 * i + 1.0
+                f1s.append(_arrs(cl["f1"]))
+                o1.append(w + (720.0 if i % 3 == 2 else 0.0))                # modulo 360 on the side of scan 1
+                j = int(perm[i])
+                f2s[j] = _arrs(cl["f2"])
+                o2[j] = w + (360.0 if i % 2 else 0.0) + (0.03 if i % 4 == 1 else 0.0)   # modulo 360, inside tol
+                exp[(3, i, 4, j)] = cl
+            # n: empty frame in scan 1, its partner holds pixels;  n+1: no neighbour within omegatol (0.3 away);
+            # n+2: frame with pixels whose partner in scan 2 is empty
+            f1s += [empty, one, one]
+            o1 += [10.0 * n + 1.0, 10.0 * n + 11.3, 10.0 * n + 21.0]
+            for i, (fr, w) in enumerate([(two, 10.0 * n + 1.0), (two, 10.0 * n + 11.0), (empty, 10.0 * n + 21.0)]):
+                f2s[int(perm[n + i])] = fr
+                o2[int(perm[n + i])] = w
+            route = "sinograms.properties.pairscans (two scans of %d frames)" % nfr
+            sa = _scan(m, f1s, shape, o1)
+            sb = _scan(m, f2s, shape, o2)
+            sa.sinorow, sb.sinorow = 3, 4
+            ok, pairs = J.call(route, _quiet, m.props.pairscans, sa, sb)
+            if ok:
+                J.eq(route, "keys", sorted(tuple(int(x) for x in kk) for kk in pairs.keys()), sorted(exp.keys()))
+                for kk, call in sorted(exp.items()):
+                    if kk in pairs:
+                        lin_eq(J, route, pairs[kk], call["lin"], np.array(call["lin"]["rcl"], np.int32).reshape(-1, 3))
+    return J.fails
+
+
 def lin_eq(J, route, ans, lin, erc):
     J.eq(route, "nedge", int(ans[0]), lin["nedge"])
     if lin["none"]:
@@ -463,7 +716,7 @@ def _quiet(fn, *a, **k):
 
 
 JUDGES = {"m2c": judge_m2c, "cut": judge_cut, "sorted": judge_sorted, "sort": judge_sort,
-          "thresh": judge_thresh, "cd": judge_cd, "pipe": judge_pipe}
+          "thresh": judge_thresh, "cd": judge_cd, "pipe": judge_pipe, "hist": judge_hist}
 
 
 def judge(case, mods, light=False):
@@ -492,6 +745,9 @@ def nontrivial(case):
         return bool(case["frame"]) and case["frame"][0]["nnz"] < case["frame0"]["nnz"]
     if p == "cd":
         return case["cd"]["ret"] < case["n"]
+    if p == "hist":       # at least two different frame pairs, one of them with shared pixels
+        return len(set(json.dumps([cl["f1"], cl["f2"]], sort_keys=True) for cl in case["calls"])) >= 2 and \
+            any(cl["lin"]["nedge"] > 0 for cl in case["calls"])
     if p == "pipe":
         return case["so"]["npx"] >= 1 and (case["so"]["npx"] < case["f1"]["nnz"] or case["so"]["npx"] < case["f2"]["nnz"])
     return True
@@ -519,6 +775,9 @@ def main():
             if case.get("prog") == "big":
                 if case.get("kind") == "range":
                     p = c14_big.range_checks(mods)
+                elif case.get("kind") == "hist":
+                    evs, p = c14_big.exec_hist(case, mods)
+                    out["events"].extend(evs)
                 else:
                     ev, p = (c14_big.exec_coo if case["kind"] == "coo" else c14_big.exec_ovl)(case, mods)
                     if ev is not None:
@@ -529,6 +788,7 @@ def main():
                 out["problems"].append({"idx": idx, "problems": [list(x) for x in p]})
     with open(out_path + ".cur", "w") as g:
         g.write(str(out["n"]))
+    out["counts"] = dict(COUNTS)
     with open(out_path, "w") as g:
         json.dump(out, g)
 
